@@ -33,6 +33,9 @@ func init() {
 			{ID: "C20.R10", Text: "no success without confirmation in the checkpoint write ladder (same rule as C05.R15)", Run: upsertLadder},
 			{ID: "C20.R11", Text: "no step around an operation loses its error: every fallible call in a wrapper (configuration snapshot, id resolution, dispatch, AsyncOp.Wait, errgroup Wait) has its error reach a return/panic/send along edges on which it can be non-nil; a result channel is read only after Wait succeeded; an errgroup's Wait is reported", Run: wrapperStepErrors},
 			{ID: "C20.R12", Text: "every single-operation wrapper evaluated whole over the fate of its operation (completed | refused at dispatch | completed with the server's error and nil results | never completed): returns nil exactly when the operation completed without error, a non-nil error otherwise, never blocks on its result channel, never panics on an absent result", Run: wrapperOutcomes},
+			{ID: "C20.R13", Text: "the deadline of a membership operation is this configuration's own timeout: the derived settings are a fresh record per call filled from this configuration's override table (same rule as C17.R2)", Run: c17r2},
+			{ID: "C20.R14", Text: "the registration reports success only after a confirmed write: update | update(key not found) → create → create(ok) → update, the last step's error deciding (same rule as C10.R19)", Run: registerLadder},
+			{ID: "C20.R15", Text: "the concurrent checkpoint read returns: it waits for exactly its workers and every worker signals on every path (same rule as C02.R14)", Run: workersSignal("couchbase.cbMetadata).Load")},
 			{ID: "C20.R4", Text: "a deadline exists for every operation (own deadline from time.Now, or a deadline-bearing context at every call site)", Run: c20r4},
 		},
 	})
